@@ -8,6 +8,8 @@ use std::time::Duration;
 
 pub struct C17;
 
+const TOKEN_BITS: u64 = (1024 + 24 + 8 + 8) * 8;
+
 /// One sample session; returns the world with a pool holding every packet kind.
 fn sample_world(seed: u64, big_payload: bool) -> Result<NetWorld, Fail> {
     let mut nw = NetWorld::new(seed);
@@ -71,6 +73,7 @@ enum Op {
     ServerDisconnect(u64),
     ReplayRequest(usize),
     Spawn(usize),
+    TamperedRequest { client: usize, bit: usize, own_address: bool },
 }
 
 impl C17 {
@@ -127,7 +130,7 @@ impl C17 {
         while !ctx.src.exhausted() && ops < max_ops {
             ops += 1;
             let n = nw.clients.len();
-            let op = match ctx.src.weighted(&[30, 10, 12, 3, 3, 6, 5]) {
+            let op = match ctx.src.weighted(&[30, 10, 12, 3, 3, 6, 5, 6]) {
                 0 => {
                     let c = ctx.src.below(n);
                     let lost_up = ctx.src.chance(40);
@@ -240,12 +243,35 @@ impl C17 {
                     }
                     Op::ReplayRequest(c)
                 }
-                _ => {
+                6 => {
                     if n < 6 {
                         Op::Spawn(spawn(&mut nw, ctx))
                     } else {
                         continue;
                     }
+                }
+                _ => {
+                    // a genuine request with one bit of its version, protocol id, expiry, nonce or sealed token flipped, presented in
+                    // whatever state the server is in (unknown address, handshake pending, connected, full), from its own or another address
+                    let c = ctx.src.below(n);
+                    let Some(&did) = nw.clients[c].sent.iter().find(|&&d| nw.pool[d].kind == 0) else { continue };
+                    let d = nw.pool[did].clone();
+                    // byte 0 is the prefix, whose upper nibble is unused for requests
+                    let bit = 8 + ctx.src.below((d.bytes.len() - 1) * 8);
+                    let own_address = !ctx.src.chance(70);
+                    let from = if own_address { d.src } else { client_addr(8) };
+                    let mut b = d.bytes.clone();
+                    b[bit / 8] ^= 1 << (bit % 8);
+                    let pending = nw.servers[0].server.verif_pending_addrs().contains(&from);
+                    let out = nw.server_recv(0, from, &b);
+                    ctx.label(if pending { "tampered_request_while_pending" } else { "tampered_request" });
+                    if out != SrvOut::None {
+                        return Err(Fail::new(
+                            "tampered_request_answered",
+                            format!("a request of client object {c} with bit {} of byte {} flipped, presented from {from} (handshake pending there: {pending}), was answered: {out:?}", bit % 8, bit / 8),
+                        ));
+                    }
+                    Op::TamperedRequest { client: c, bit, own_address }
                 }
             };
             ctx.op(&op);
@@ -308,7 +334,7 @@ impl Property for C17 {
         "exploration"
     }
     fn rule(&self) -> String {
-        "(a) Enumerated on sample sessions (small and 1300-byte payloads): every single-bit position and every truncation length of one sample datagram of every sealed kind and direction (denied, challenge, response, keep-alive, payload, disconnect) must fail to decode under its own key; every sample opened under another session's key, the other direction's key or another protocol id must fail; every single bit of a token's sealed part (1024 bytes), of its nonce and of its bound public fields protocol id and expiry, and opening under another key / protocol id / expiry must fail (hook: private token open), and the server must not answer a request so modified. (b) Generated histories: several clients against a server with 1-3 slots, lossy handshakes with retries, requests repeated while connecting or connected (re-challenges), denials on a full server, keep-alives, payloads of 0-1300 bytes, disconnects from both sides, timeouts; every datagram either side emits is attributed to a key by trial decryption with every key of the case, and per (emitting endpoint, key) no two different datagrams may carry the same sequence number. Non-trivial: (a) a tampered input; (b) a case in which one key sealed at least one handshake reply (denied / challenge) and at least one session packet. Distinct = hash of the decoded case.".into()
+        "(a) Enumerated on sample sessions (small and 1300-byte payloads): every single-bit position and every truncation length of one sample datagram of every sealed kind and direction (denied, challenge, response, keep-alive, payload, disconnect) must fail to decode under its own key; every sample opened under another session's key, the other direction's key or another protocol id must fail; every single bit of a token's sealed part (1024 bytes), of its nonce and of its bound public fields protocol id and expiry, and opening under another key / protocol id / expiry must fail (hook: private token open), and the server must not answer a request so modified, whether it comes from an unknown address, from the address whose genuine request was just answered (handshake pending), while the handshake is pending at another address, or from the connected session's address. (b) Generated histories: several clients against a server with 1-3 slots, lossy handshakes with retries, requests repeated while connecting or connected (re-challenges), genuine requests with one flipped bit presented in any server state from their own or another address (must never be answered), denials on a full server, keep-alives, payloads of 0-1300 bytes, disconnects from both sides, timeouts; every datagram either side emits is attributed to a key by trial decryption with every key of the case, and per (emitting endpoint, key) no two different datagrams may carry the same sequence number. Non-trivial: (a) a tampered input; (b) a case in which one key sealed at least one handshake reply (denied / challenge) and at least one session packet. Distinct = hash of the decoded case.".into()
     }
     fn assumptions(&self) -> Vec<String> {
         vec![
@@ -320,11 +346,11 @@ impl Property for C17 {
         PbtCfg { cases: tier.pick(150_000, 3_000_000), max_len: tier.pick(500, 1600), shrink_ms: 120_000 }
     }
     fn required_labels(&self) -> Vec<&'static str> {
-        vec!["handshake_and_session_under_one_key", "challenged_by_second_server", "fell_back_after_challenge"]
+        vec!["handshake_and_session_under_one_key", "challenged_by_second_server", "fell_back_after_challenge", "tampered_request", "tampered_request_while_pending"]
     }
     fn enums(&self, _tier: Tier) -> Vec<(&'static str, u64)> {
         // datagram bits: sample set x (up to 1400*8 bit positions); truncations; token bits; cross-key
-        vec![("datagram_bits_small", 12 * 400 * 8), ("datagram_bits_big", 2 * 1330 * 8), ("datagram_truncations", 12 * 1330), ("token_bits", (1024 + 24 + 8 + 8) * 8), ("cross_open", 64)]
+        vec![("datagram_bits_small", 12 * 400 * 8), ("datagram_bits_big", 2 * 1330 * 8), ("datagram_truncations", 12 * 1330), ("token_bits", 4 * TOKEN_BITS), ("cross_open", 64)]
     }
     fn run_enum(&self, name: &str, index: u64, ctx: &mut Ctx) -> Outcome {
         match name {
@@ -361,7 +387,10 @@ impl Property for C17 {
                 if verif_open_private_token(&t.private_data, t.protocol_id, t.expire_timestamp, &t.xnonce, &k).is_err() {
                     return Err(Fail::new("sample_does_not_open", "sample token does not open under the server key"));
                 }
-                let bit = index as usize;
+                // server state the modified request meets: 0 unknown address, 1 genuine request already answered at this address
+                // (handshake pending), 2 pending at another address, 3 session of this token connected at this address
+                let state = index / TOKEN_BITS;
+                let bit = (index % TOKEN_BITS) as usize;
                 let (mut data, mut xn, mut proto, mut exp) = (t.private_data, t.xnonce, t.protocol_id, t.expire_timestamp);
                 let what;
                 if bit < 1024 * 8 {
@@ -378,7 +407,7 @@ impl Property for C17 {
                     exp ^= 1 << (bit - (1024 + 24 + 8) * 8);
                     what = "expiry";
                 }
-                ctx.op(&(name, bit));
+                ctx.op(&(name, state, bit));
                 ctx.nontrivial = true;
                 if verif_open_private_token(&data, proto, exp, &xn, &k).is_ok() {
                     return Err(Fail::new("token_bit_flip_accepted", format!("token opens after flipping bit {bit} ({what})")));
@@ -389,9 +418,17 @@ impl Property for C17 {
                 let n = req.encode(&mut buf, PROTO, None).map_err(|e| Fail::new("encode", e.to_string()))?;
                 let mut nw2 = NetWorld::new(17);
                 nw2.servers.push(mk_server(0, 1, PROTO, 2, nw.now, true));
+                if state > 0 {
+                    let at = if state == 2 { client_addr(5) } else { client_addr(1) };
+                    let c = nw2.add_client(t.clone(), at, 1);
+                    let staged = if state == 3 { nw2.handshake(0, c, Duration::from_millis(20), 20) } else { matches!(nw2.honest_step(c, Duration::from_millis(20), false, false).out, SrvOut::Send { .. }) };
+                    if !staged {
+                        return Err(Fail::new("stage", format!("could not stage server state {state} for the modified request")));
+                    }
+                }
                 let out = nw2.server_recv(0, client_addr(1), &buf[..n]);
                 if out != SrvOut::None {
-                    return Err(Fail::new("token_bit_flip_accepted", format!("server answered a request whose token has bit {bit} ({what}) flipped: {out:?}")));
+                    return Err(Fail::new("token_bit_flip_accepted", format!("server (state {state}) answered a request whose token has bit {bit} ({what}) flipped: {out:?}")));
                 }
                 Ok(())
             }
